@@ -119,3 +119,158 @@ def c20(tier, sc):
     rep.assumptions += ["VerifTables() returns the tables the detectors consult (it copies sqlKeywords, blackTags, blacks, blackEvents)",
                         "baseline/Baseline.tla is the snapshot of the pinned tree"]
     return rep.finish()
+
+
+# ---------------------------------------------------------------------------
+# shared XSS machinery
+
+import vgen
+from vlib import cfg_text, tla_set, tlc_with_cfg, write_ndjson, read_ndjson, validate_traces
+
+H5_INVS = ["TypeOK", "PosInRange", "TokInside", "TokOrder", "CountBound", "DepthBounded", "Progress",
+           "EndsAtFirstTerminator", "Export"]
+
+
+def tla_seq(ints):
+    return "<<" + ", ".join(str(i) for i in ints) + ">>"
+
+
+def h5_configs(tier):
+    """(name, alphabet, maxlen, prefixes, ctxs) explored exhaustively by TLC on Html5.tla."""
+    S = vgen.b
+    sig = S("<>/='\"`!-?%[]\x00 a&#;x1")
+    if tier == "quick":
+        return [
+            ("sigma3", sig, 3, [[]], range(5)),
+            ("core5", S("<>/= a'"), 5, [[]], range(5)),
+            ("comment", S("-!>\x00a"), 6, [S("<!--")], [0]),
+            ("cdata", S("]>a["), 6, [S("<![CDATA[")], [0]),
+            ("pct", S("%>a`-"), 6, [S("<%")], [0]),
+            ("bogus", S(">a-`["), 4, [S("<!"), S("<?"), S("</ "), S("<!DOCTYPE"), S("<!doctype")], [0]),
+            ("attrq", S("'\"`a> /="), 4, [S("<a b="), S("<a b='"), S('<a b="'), S("<a b=`"), S("<a b ")], [0]),
+            ("valctx", S("'\"`a> /=<"), 4, [[]], [1, 2, 3, 4]),
+        ]
+    return [
+        ("sigma4", sig, 4, [[]], range(5)),
+        ("core7", S("<>/= a'"), 7, [[]], range(5)),
+        ("comment", S("-!>\x00a"), 8, [S("<!--")], [0]),
+        ("cdata", S("]>a["), 9, [S("<![CDATA[")], [0]),
+        ("pct", S("%>a`-"), 8, [S("<%")], [0]),
+        ("bogus", S(">a-`["), 6, [S("<!"), S("<?"), S("</ "), S("<!DOCTYPE"), S("<!doctype")], [0]),
+        ("attrq", S("'\"`a> /="), 6, [S("<a b="), S("<a b='"), S('<a b="'), S("<a b=`"), S("<a b ")], [0]),
+        ("valctx", S("'\"`a> /=<"), 6, [[]], [1, 2, 3, 4]),
+    ]
+
+
+def h5_export(sc, d, rep, tier, export=True, invs=None):
+    """Direction B, HTML side: TLC explores Html5.tla exhaustively for each configuration
+    (all invariants on) and prints every terminal behaviour; returns the behaviours."""
+    beh = []
+    for name, alpha, maxlen, prefixes, ctxs in h5_configs(tier):
+        res = vlib.tlc_mc(sc, d, "Html5", "Html5_" + name, {
+            "Alphabet": tla_set(alpha), "MaxLen": maxlen,
+            "Prefixes": "{" + ", ".join(tla_seq(p) for p in prefixes) + "}",
+            "CtxSet": tla_set(list(ctxs)), "DoExport": "TRUE" if export else "FALSE"},
+            invariants=invs or H5_INVS, properties=["StepVariant"], timeout=3000)
+        if res.violated:
+            raise ToolFailure("specification invariant %s violated in Html5/%s:\n%s" % (res.violated, name, res.out[-3000:]))
+        if not res.ok:
+            raise ToolFailure("TLC failed on Html5/%s:\n%s" % (name, res.out[-3000:]))
+        rep.add_tlc("Html5/" + name, res)
+        got = res.printed()
+        rep.part("Html5/" + name, alphabet=show(alpha), maxlen=maxlen, prefixes=[show(p) for p in prefixes],
+                 contexts=list(ctxs), behaviours=len(got))
+        beh += got
+    return beh
+
+
+def xss_inputs(tier, salt):
+    """Direction A input set: fixtures, corpus, prefixes, mutations, fragment walks, construct bodies."""
+    r = vgen.rng(salt)
+    fx = [vgen.b(i) for _, i, _ in vgen.fixtures("html5")]
+    cp = vgen.corpus("xss.txt")
+    base = fx + cp
+    big = tier == "thorough"
+    items = []
+    items += base
+    items += list(vgen.prefixes(base, 200))
+    items += list(vgen.mutations(base, vgen.SIGMA_HTML, r, per_input=60 if big else 8))
+    items += list(vgen.walks(vgen.HTML_FRAGMENTS, r, 60000 if big else 4000, 1, 9))
+    for opener, alpha in vgen.html_constructs():
+        for body in vgen.all_strings(alpha, 6 if big else 4):
+            items.append(vgen.b(opener) + body)
+    return list(vgen.dedup(items))
+
+
+def xss_trace_validate(sc, d, rep, vh, inputs, name="TraceXss"):
+    inp = sc.path(name + "-inputs.ndjson")
+    write_ndjson(inp, [{"in": x} for x in inputs])
+    tr = sc.path(name + "-trace.ndjson")
+    run([vh, "xss-record", inp, tr], check=True, timeout=3000)
+    ev, ntr, rejects, st, gen = validate_traces(sc, d, "TraceXss.tla", "TraceXss.cfg", tr)
+    rep.cov["states"] += st
+    rep.cov["transitions"] += gen
+    rep.part(name, events=ev, traces=ntr, rejected=len(rejects), inputs=len(inputs))
+    return ev, ntr, rejects, tr
+
+
+def xss_canary(sc, d, vh):
+    """A recorded trace with one corrupted field must be rejected."""
+    inp = sc.path("canary-in.ndjson")
+    write_ndjson(inp, [{"in": vgen.b("<a href='x' onclick=1><!-- c -->t"), "ctx": 0}])
+    tr = sc.path("canary-trace.ndjson")
+    run([vh, "xss-record", inp, tr], check=True, timeout=60)
+    lines = open(tr).read().strip().split("\n")
+    variants = []
+    # offset + 1 in the third token; a token dropped; verdict flipped
+    l2 = list(lines); e = json.loads(l2[3]); e["off"] += 1; l2[3] = json.dumps(e, separators=(",", ":")); variants.append(l2)
+    l3 = list(lines); del l3[2]; variants.append(l3)
+    l4 = list(lines); e = json.loads(l4[-1]); e["xss"] = not e["xss"]; l4[-1] = json.dumps(e, separators=(",", ":")); variants.append(l4)
+    for i, v in enumerate(variants):
+        p = sc.path("canary-%d.ndjson" % i)
+        open(p, "w").write("\n".join(v) + "\n")
+        ev, ntr, rejects, _, _ = validate_traces(sc, d, "TraceXss.tla", "TraceXss.cfg", p, shards=1)
+        if len(rejects) != 1:
+            raise ToolFailure("canary %d accepted: a corrupted trace was not rejected" % i)
+    # and the unmodified trace must be accepted
+    ev, ntr, rejects, _, _ = validate_traces(sc, d, "TraceXss.tla", "TraceXss.cfg", tr, shards=1)
+    if rejects:
+        return False
+    return True
+
+
+@check("C07")
+def c07(tier, sc):
+    rep = Report("C07", tier, "model_checking")
+    vh = build_harness(sc)
+    tfile, jfile = gen_tables(sc, vh)
+    d = stage_specs(sc, "c07", [tfile])
+    # direction B: TLC behaviours replayed into the real code
+    beh = h5_export(sc, d, rep, tier)
+    bfile = sc.path("h5-behaviours.ndjson")
+    write_ndjson(bfile, beh)
+    mm = sc.path("h5-mismatch.ndjson")
+    run([vh, "xss-replay", bfile, mm], check=True, timeout=3000)
+    mism = read_ndjson(mm)
+    for m in mism:
+        rep.violation("real tokenizer/classifier differs from the specification on %r ctx=%d: spec %s impl %s" % (
+            show(m["in"]), m["ctx"], json.dumps(m["spec"])[:200], json.dumps(m["impl"])[:200]),
+            {"kind": "xss.conf", "in": m["in"], "ctx": m["ctx"], "spec": m["spec"], "impl": m["impl"]})
+    rep.cov["traces_validated_against_impl"] += len(beh)
+    rep.part("replayB", behaviours=len(beh), mismatches=len(mism))
+    # direction A: real executions validated by TLC
+    inputs = xss_inputs(tier, "c07")
+    ev, ntr, rejects, _ = xss_trace_validate(sc, d, rep, vh, inputs)
+    rep.cov["traces_validated_against_impl"] += ntr
+    for rj in rejects:
+        rep.violation("trace of the real code rejected by the specification (%s) on %r ctx=%d at token %d: spec %s impl %s" % (
+            rj["reject"], show(rj["in"]), rj["ctx"], rj["ntok"], json.dumps(rj["spec"]), json.dumps(rj["impl"])),
+            {"kind": "xss.conf", "in": rj["in"], "ctx": rj["ctx"], "spec": rj["spec"], "impl": rj["impl"], "at": rj["ntok"]})
+    if not xss_canary(sc, d, vh):
+        rep.notes.append("canary base trace itself rejected (see violations)")
+    for x in beh[1000:1003] + [{"in": i} for i in inputs[50:53]]:
+        rep.sample({"in": show(x["in"]), **{k: v for k, v in x.items() if k != "in"}})
+    rep.cov["evaluations"] = len(beh) + ntr
+    rep.assumptions += ["specification written from the algorithm; named port deviations (DESIGN 7.2) are part of it",
+                        "VerifH5Tokens/VerifXSSCtx drive the same next()/isXSS code the public API runs"]
+    return rep.finish()
